@@ -43,6 +43,7 @@ func runC04(c *Ctx) {
 	c04Iteration(c, impls, "C04-D3")
 	c04Extremes(c, impls)
 	c04SparseFolds(c, "C04-D4")
+	c04SparseEntries(c, "C04-D3")
 	c04Windows(c)
 	c04Shift(c, "C04-D6")
 	c04Normalize(c, "C04-D6")
@@ -2111,4 +2112,161 @@ func foundFlagEmptiness(f *ssa.Function) bool {
 		}
 	}
 	return false
+}
+
+// c04SparseEntries: the sparse store's map holds its bins, and every query (emptiness, extremes, iteration, the
+// encoders) takes a map entry for a bin with weight. A weight that comes from outside — a method's parameter, a
+// decoded value — is therefore written into the map only where it is known not to be zero (AddWithCount returns
+// early on a zero count; every other writer goes through it). Weights that are themselves entries of a sparse map
+// (a merge of two sparse stores, a copy), the callback arguments of an iteration (iterations skip empty bins: D3)
+// and the products of Reweight (C16-D2 / C13) are accepted as they are.
+func c04SparseEntries(c *Ctx, rule string) {
+	sparse := c.P.NamedType(pkgStore, "SparseStore")
+	if sparse == nil {
+		c.R.undecided(rule, "SparseStore/entries", "", "", "type resolves", "unresolved")
+		return
+	}
+	isSparseMap := func(v ssa.Value) bool {
+		// *(&x.field) with x of type *SparseStore and a map field
+		if u, ok := v.(*ssa.UnOp); ok && u.Op == token.MUL {
+			if fa, ok := u.X.(*ssa.FieldAddr); ok {
+				if pt, ok := fa.X.Type().Underlying().(*types.Pointer); ok {
+					if nt, ok := pt.Elem().(*types.Named); ok && nt == sparse {
+						_, isMap := u.Type().Underlying().(*types.Map)
+						return isMap
+					}
+				}
+			}
+		}
+		return false
+	}
+	n := 0
+	perFn := map[*ssa.Function]int{}
+	for _, f := range c.P.Funcs {
+		if !inModule(f) || len(f.Blocks) == 0 {
+			continue
+		}
+		var dom map[*ssa.BasicBlock]bool
+		for _, b := range f.Blocks {
+			for _, in := range b.Instrs {
+				mu, ok := in.(*ssa.MapUpdate)
+				if !ok || !isSparseMap(mu.Map) {
+					continue
+				}
+				n++
+				perFn[f]++
+				key := "SparseStore/entries/" + helperKey(f) + fmt.Sprintf("#%d", perFn[f])
+				// the weight written: X in m[k] = m[k] + X, or the whole value
+				x := mu.Value
+				if bo, ok := x.(*ssa.BinOp); ok && bo.Op == token.ADD {
+					isOwn := func(v ssa.Value) bool {
+						lk, ok := v.(*ssa.Lookup)
+						return ok && lk.X == mu.Map && lk.Index == mu.Key
+					}
+					if isOwn(bo.X) {
+						x = bo.Y
+					} else if isOwn(bo.Y) {
+						x = bo.X
+					}
+				}
+				origin := ""
+				var walk func(v ssa.Value, depth int)
+				walk = func(v ssa.Value, depth int) {
+					if origin != "" || depth > 6 {
+						return
+					}
+					switch t := v.(type) {
+					case *ssa.Lookup:
+						if _, isMap := t.X.Type().Underlying().(*types.Map); isMap {
+							origin = "an entry of a map"
+						}
+					case *ssa.Extract:
+						if nx, ok := t.Tuple.(*ssa.Next); ok && !nx.IsString {
+							origin = "an entry of a map"
+						}
+					case *ssa.Parameter:
+						if f.Parent() != nil {
+							origin = "a callback argument"
+						}
+					case *ssa.Const:
+						if t.Value != nil && t.Value.Kind() != constant.Unknown && constant.Sign(t.Value) != 0 {
+							origin = "a constant that is not zero"
+						}
+					case *ssa.BinOp:
+						if t.Op == token.MUL {
+							origin = "a product"
+						}
+					case *ssa.Phi:
+						for _, e := range t.Edges {
+							walk(e, depth+1)
+						}
+					case *ssa.Convert:
+						walk(t.X, depth+1)
+					case *ssa.Call:
+						if fn := t.Common().StaticCallee(); fn != nil && fn.Pkg != nil && fn.Pkg.Pkg.Path() == "math" && (fn.Name() == "Ldexp") {
+							origin = "a product"
+						}
+					}
+				}
+				walk(x, 0)
+				if origin != "" {
+					c.R.okay(rule, key, shortFn(f), c.ipos(mu), "a weight from outside enters the map only where it is known not to be zero", "the weight is "+origin)
+					continue
+				}
+				// a dominating test of x against zero on the side where x ≠ 0
+				if dom == nil {
+					dom = map[*ssa.BasicBlock]bool{}
+				}
+				guarded := false
+				for d := b; d != nil && !guarded; d = d.Idom() {
+					id := d.Idom()
+					if id == nil {
+						break
+					}
+					iff, ok := id.Instrs[len(id.Instrs)-1].(*ssa.If)
+					if !ok {
+						continue
+					}
+					bo, ok := iff.Cond.(*ssa.BinOp)
+					if !ok {
+						continue
+					}
+					isZero := func(v ssa.Value) bool {
+						k, ok := v.(*ssa.Const)
+						if !ok || k.Value == nil {
+							return false
+						}
+						s := k.Value.String()
+						return s == "0" || s == "0.0"
+					}
+					var op token.Token
+					switch {
+					case bo.X == x && isZero(bo.Y):
+						op = bo.Op
+					case bo.Y == x && isZero(bo.X):
+						op = map[token.Token]token.Token{token.EQL: token.EQL, token.NEQ: token.NEQ, token.LSS: token.GTR, token.GTR: token.LSS, token.LEQ: token.GEQ, token.GEQ: token.LEQ}[bo.Op]
+					default:
+						continue
+					}
+					// which successor carries x ≠ 0
+					side := -1
+					switch op {
+					case token.EQL, token.LEQ, token.GEQ:
+						side = 1
+					case token.NEQ, token.LSS, token.GTR:
+						side = 0
+					}
+					if side < 0 || len(id.Succs) != 2 || id.Succs[0] == id.Succs[1] {
+						continue
+					}
+					if s := id.Succs[side]; s == d && len(s.Preds) == 1 || s.Dominates(b) && len(s.Preds) == 1 {
+						guarded = true
+					}
+				}
+				c.R.check(guarded, rule, key, shortFn(f), c.ipos(mu), "a weight from outside enters the map only where it is known not to be zero",
+					map[bool]string{true: "written under a test against zero", false: "the weight " + x.Name() + " is written without a test against zero on the way"}[guarded])
+			}
+		}
+	}
+	c.R.floor(rule, "updates of the sparse store's map", n, 2)
 }
